@@ -1368,6 +1368,17 @@ fn ensure_allocator_state_table_and_trim(
     Ok(())
 }
 
+fn persist_pending_non_durable_commits(
+    transaction_tracker: &Arc<TransactionTracker>,
+    mem: &Arc<TransactionalMemory>,
+) -> Result<(), Error> {
+    let tx =
+        begin_write_with_allocation_policy(transaction_tracker, mem, AllocationPolicy::Default)?;
+    tx.commit()?;
+
+    Ok(())
+}
+
 // Closes the database: persists the allocator state table, so that the next open does not
 // require a repair, and closes the storage backend. Runs exactly once, when the database
 // closes: from Database::drop, or from the end of the write transaction that was live at
@@ -1383,6 +1394,20 @@ fn close_database(transaction_tracker: &Arc<TransactionTracker>, mem: &Arc<Trans
     {
         #[cfg(feature = "logging")]
         warn!("Failed to write allocator state table. Repair may be required at restart.");
+    }
+    // Commits made with Durability::None must still reach the file on a clean close, which the
+    // commit above takes care of. When it is skipped because of a pending repair, a plain
+    // durable commit (which saves no allocator state) persists them; the file stays marked
+    // as requiring recovery.
+    if !crate::panicking()
+        && mem.needs_repair()
+        && !mem.lock_poisoned()
+        && !transaction_tracker.lock_poisoned()
+        && mem.pending_non_durable_commit()
+        && persist_pending_non_durable_commits(transaction_tracker, mem).is_err()
+    {
+        #[cfg(feature = "logging")]
+        warn!("Failed to persist non-durable commits. They are lost.");
     }
 
     if mem.close().is_err() {
